@@ -1223,6 +1223,9 @@ theorem step_length_le [OfNat α 0] (eps : α) (w : World α) (op : Op α) :
     · exact Nat.le_refl _
     · split <;> simp
 
+/-- a transform whose three vectors are three different objects of the world -/
+def Trans.wf (t : Trans) : Prop := t.bc ≠ t.params ∧ t.bc ≠ t.constants
+
 theorem sync_ok (eps : α) (w : World α) (t : Trans) (hw : WorldOk w) : WorldOk (sync eps w t) := by
   unfold sync
   split
